@@ -5,6 +5,7 @@ import (
 	"encoding/json"
 	"fmt"
 	"regexp"
+	"strings"
 
 	"github.com/risor-io/risor/object"
 	"github.com/risor-io/risor/op"
@@ -42,19 +43,15 @@ func (r *Regexp) Compare(other object.Object) (int, error) {
 		return typeComp, nil
 	}
 	otherRegex := other.(*Regexp)
-	if r.value == otherRegex.value {
-		return 0, nil
-	}
-	if r.value.String() > otherRegex.value.String() {
-		return 1, nil
-	}
-	return -1, nil
+	// Two regular expressions are the same value when they were compiled
+	// from the same pattern: that is what HashKey says, too
+	return strings.Compare(r.value.String(), otherRegex.value.String()), nil
 }
 
 func (r *Regexp) Equals(other object.Object) object.Object {
 	switch other := other.(type) {
 	case *Regexp:
-		if r.value == other.value {
+		if r.value.String() == other.value.String() {
 			return object.True
 		}
 	}
